@@ -390,6 +390,85 @@ impl Check for PatternShadowing {
     }
 }
 
+/* ------------------------------ binders of one clause are invisible in its siblings ------------------------------ */
+
+/// (d) a name bound by one match arm / comatch clause scopes over that arm or clause only: in a
+/// sibling it denotes the enclosing binder. An outer `x = 100`, a first arm / clause that binds x at
+/// each of its binding positions, a second one that returns x free; both selected at run time.
+pub struct SiblingScopes {
+    cases: Vec<(usize, bool)>,
+}
+/// (construct with FIRST and SECOND bodies in place, call selecting the first clause, call selecting the second, what the first clause's x is)
+const SIBLING_FORMS: [(&str, &str, &str, &str, &str); 8] = [
+    ("match arms, constructor payload", "let v : Opt = ARG in match v | +Some(x) => ret x | +None() => ret x end", "+Some(1)", "+None()", "Integer(1)"),
+    ("comatch, destructor clauses with an argument", "let o : Thk O = { comatch | .a x => ret x | .b y => ret x end } in ! o ARG", ".a 1", ".b 5", "Integer(1)"),
+    ("comatch, function by cases: leading variable pattern", "let f : Thk (Int64 -> Opt -> Ret Int64) = { comatch | x +Some(y) => ret x | z +None() => ret x end } in ! f ARG", "1 +Some(2)", "1 +None()", "Integer(1)"),
+    ("comatch, function by cases: leading constructor pattern", "let f : Thk (Opt -> Int64 -> Ret Int64) = { comatch | +Some(x) w => ret x | +None() w => ret x end } in ! f ARG", "+Some(1) 7", "+None() 7", "Integer(1)"),
+    ("comatch, function by cases: second parameter", "let f : Thk (Opt -> Int64 -> Ret Int64) = { comatch | +Some(w) x => ret x | +None() y => ret x end } in ! f ARG", "+Some(3) 1", "+None() 7", "Integer(1)"),
+    ("comatch, destructor then patterns", "let o : Thk P = { comatch | .a x +Some(y) => ret x | .a z +None() => ret x end } in ! o ARG", ".a 1 +Some(2)", ".a 1 +None()", "Integer(1)"),
+    ("comatch, leading tuple pattern", "let f : Thk (Int64 * Int64 -> Opt -> Ret Int64) = { comatch | (x, w) +Some(y) => ret x | z +None() => ret x end } in ! f ARG", "(1, 2) +Some(2)", "(1, 2) +None()", "Integer(1)"),
+    ("match arms, nested payload of a pair", "let v : Opt * Int64 = ARG in match v | (+Some(x), w) => ret x | (+None(), w) => ret x end", "(+Some(1), 2)", "(+None(), 2)", "Integer(1)"),
+];
+impl SiblingScopes {
+    pub fn new() -> Self {
+        let mut cases = vec![];
+        for f in 0..SIBLING_FORMS.len() {
+            for second in [false, true] {
+                cases.push((f, second));
+            }
+        }
+        SiblingScopes { cases }
+    }
+    fn text(&self, i: usize) -> (String, &'static str) {
+        let (f, second) = self.cases[i];
+        let (_, form, first_arg, second_arg, first_x) = SIBLING_FORMS[f];
+        let body = form.replace("ARG", if second { second_arg } else { first_arg });
+        (
+            format!("begin\n  let Ret = @(intrinsic(ret)) that\n  let Thk = @(intrinsic(thk)) that\n  let Unit = @(intrinsic(unit)) that\n  let Int64 = @(intrinsic(i64)) that\n  let Opt = data | +None : Unit | +Some : Int64 end that\n  let O = codata | .a : Int64 -> Ret Int64 | .b : Int64 -> Ret Int64 end that\n  let P = codata | .a : Int64 -> Opt -> Ret Int64 end that\n  let x = 100 in\n  {body}\nend\n"),
+            if second { "Integer(100)" } else { first_x },
+        )
+    }
+}
+impl Check for SiblingScopes {
+    fn property(&self) -> &'static str {
+        "C07"
+    }
+    fn name(&self) -> String {
+        "c07-sibling-scopes".into()
+    }
+    fn len(&self) -> usize {
+        self.cases.len()
+    }
+    fn describe(&self, i: usize) -> String {
+        let (t, e) = self.text(i);
+        format!("{} ({} clause selected), expect {e}\n{t}", SIBLING_FORMS[self.cases[i].0].0, if self.cases[i].1 { "second" } else { "first" })
+    }
+    fn rule(&self) -> String {
+        format!("{} programs = 8 two-clause constructs (match arms binding in a constructor payload / in a nested payload of a pair; comatch clauses headed by a destructor, by a leading variable / constructor / tuple pattern, binding in the second parameter, a destructor followed by patterns) under an outer `x = 100`, the first clause binding x and returning it, the second returning x free, each selected at run time; oracle: accepted, the first clause returns its own x, the second returns 100; non-trivial = every program", self.cases.len())
+    }
+    fn run(&mut self, i: usize) -> CaseResult {
+        let scratch = Scratch::new("c07sib");
+        let (text, expected) = self.text(i);
+        let path = scratch.write("main.zydeco", &text);
+        let mut r = CaseResult::ok("clause").key(i as u64).nontrivial(true);
+        let what = SIBLING_FORMS[self.cases[i].0].0;
+        match guarded(|| {
+            let s = Subject::analyze(&path);
+            let v = s.verdict();
+            let run = if v.accepted() { Some(s.run(b"", &[], 2000)) } else { None };
+            (v, run)
+        }) {
+            | Err(p) => r = r.violation(format!("front end panicked at {}", crate::front::short_loc(&p.loc)), format!("{:?}\n{text}", p)),
+            | Ok((v, None)) => r = r.violation(format!("a name bound in one clause changes how a sibling clause is checked ({what})"), format!("{:?}\n{text}", v)),
+            | Ok((_, Some(run))) => match &run.end {
+                | RunEnd::Ret(got) if got == expected => r = r.count("agreements", 1),
+                | other => r = r.violation(format!("a name bound in one clause is visible in a sibling clause ({what})"), format!("expected {expected}, got {:?}\n{text}", other)),
+            },
+        }
+        r
+    }
+}
+
 pub fn checks(tier: Tier) -> Vec<Box<dyn Check>> {
-    vec![Box::new(Probes::new()), Box::new(Renaming::new(tier)), Box::new(PatternShadowing::new())]
+    vec![Box::new(Probes::new()), Box::new(Renaming::new(tier)), Box::new(PatternShadowing::new()), Box::new(SiblingScopes::new())]
 }
